@@ -55,8 +55,8 @@ fn alphabet() -> Vec<Op> {
         Op::Advance(Adv::ToWake),
         Op::Advance(Adv::Far),
         Op::Drain,
-        Op::Response { id: 0, error: false, auth: Auth::Unsigned, from: 0, fp: false },
-        Op::Response { id: 1, error: false, auth: Auth::Signed { key: 0, algo: 0 }, from: 1, fp: true },
+        Op::Response { id: 0, error: false, auth: Auth::Unsigned, from: 0, fp: false, content: 0 },
+        Op::Response { id: 1, error: false, auth: Auth::Signed { key: 0, algo: 0 }, from: 1, fp: true, content: 0 },
         Op::Cancel { id: 0 },
         Op::CancelRetransmissions { id: 1 },
         Op::SetRemoteCreds(0),
